@@ -222,17 +222,28 @@ def case_multipoint(contact, rep):
         c = mesh.npoints - 1
         solid = fem.SolidBody(fem.NeoHooke(mu=1, bulk=2), field)
         if contact:
-            state = ["open", "closed", "mixed"][rep % 3]
+            state = ["open", "closed", "mixed", "touching", "all-axes"][rep % 5]
+            skip = (1, 1, 0)
             if state == "closed":
                 field[0].values[pts, 2] += 0.6  # all points penetrate the plane of the centre point (gap 0.4)
             elif state == "mixed":
                 field[0].values[pts[::2], 2] += 0.6
-            # keep every gap at least 0.1 away from the switching point
-            gap = (mesh.points[c, 2] + field[0].values[c, 2]) - (mesh.points[pts, 2] + field[0].values[pts, 2])
+            elif state == "touching":
+                # the wall (centre point) touches the surface in the reference configuration: zero reference gap
+                mesh.points[c, 2] = 1.0
+                field[0].values[pts, 2] += rng.choice([-1.0, 1.0], len(pts)) * rng.uniform(0.15, 0.3, len(pts))
+            elif state == "all-axes":
+                # contact in every axis; points at x = 0.5 or y = 0.5 have a zero reference gap to the centre in that axis
+                skip = (0, 0, 0)
+                field[0].values[pts, :2] += rng.choice([-1.0, 1.0], (len(pts), 2)) * rng.uniform(0.15, 0.3, (len(pts), 2))
+                field[0].values[pts[::2], 2] += 0.6
+            # keep every gap of an active axis at least 0.1 away from the switching point
+            act = [ax for ax in range(3) if not skip[ax]]
+            gap = (mesh.points[c] + field[0].values[c])[act] - (mesh.points[pts] + field[0].values[pts])[:, act]
             if np.any(np.abs(gap) < 0.1):
                 run.skip("items.tangent", "contact gap too close to the switching point")
                 return
-            it = fem.MultiPointContact(field, points=pts, centerpoint=c, skip=(1, 1, 0), multiplier=float(rng.uniform(10, 1000)))
+            it = fem.MultiPointContact(field, points=pts, centerpoint=c, skip=skip, multiplier=float(rng.uniform(10, 1000)))
             label = "MultiPointContact[%s]" % state
         else:
             skip = [(0, 0, 0), (0, 1, 0), (1, 1, 0)][rep % 3]
@@ -339,7 +350,7 @@ def cases(tier, seed):
             for rep in range(4):
                 out.append(("load:%s:%s:%d" % (what, kind, rep), case_load(what, kind, rep)))
     for contact in (False, True):
-        for rep in range(6):
+        for rep in range(10 if contact else 6):
             out.append(("mpc:%s:%d" % (contact, rep), case_multipoint(contact, rep)))
     for rep in range(2):
         out.append(("dead:%d" % rep, case_dead_loads(rep)))
@@ -355,7 +366,7 @@ def _required():
               "SolidBodyNearlyIncompressible[planestrain]", "SolidBodyNearlyIncompressible[axisymmetric]",
               "SolidBodyPressure[hex]", "SolidBodyPressure[planestrain]", "SolidBodyPressure[axisymmetric]",
               "SolidBodyCauchyStress[hex]", "MultiPointConstraint", "MultiPointContact[open]", "MultiPointContact[closed]",
-              "MultiPointContact[mixed]", "PointLoad", "SolidBodyForce", "SolidBodyGravity", "FormItem", "SolidBody[viscoelastic,history]",
+              "MultiPointContact[mixed]", "MultiPointContact[touching]", "MultiPointContact[all-axes]", "PointLoad", "SolidBodyForce", "SolidBodyGravity", "FormItem", "SolidBody[viscoelastic,history]",
               "SolidBody[plasticity,history]", "SolidBody[ogden-roxburgh,history]"):
         req.append("tangent:" + u)
     for u in ("SolidBody[Field]", "SolidBody[FieldPlaneStrain]", "SolidBody[FieldAxisymmetric]", "SolidBody[ThreeFieldVariation,mixed]",
